@@ -326,14 +326,20 @@ func (t *standardResponseTranscoder) transcodeFunc(protomsg proto.Message, f fun
 	return nil
 }
 
-func (t *standardResponseTranscoder) ContentType(_ proto.Message) (mime string, binary bool) {
+func (t *standardResponseTranscoder) ContentType(protomsg proto.Message) (mime string, binary bool) {
 	mime, binary = t.marshaler.ContentType()
-	if t.isSSE {
+	if t.isSSE && !isStatusMessage(protomsg) {
 		// SSE clients (EventSource) only accept responses served as text/event-stream.
+		// An error status is never framed as an event: Transcode marshals it as a single plain document,
+		// so it keeps the marshaler's content type.
 		mime = contentTypeSSE
 	}
 
 	return mime, binary
+}
+
+func isStatusMessage(protomsg proto.Message) bool {
+	return protomsg != nil && protomsg.ProtoReflect().Descriptor().FullName() == "google.rpc.Status"
 }
 
 // standardRequestStreamTranscoder is a wrapper around [standardRequestTranscoder] for marshalers supporting streaming.
